@@ -53,6 +53,9 @@ func VerifC08Session() {
 	default: // in the body of a lock-step loop
 		sf = blk(zipl("a", "b", call("two"), call("fromto", ilit(0), ilit(3)), blk(asg("g1", nm("b")), risky)), asg("g2", lit()))
 	}
+	// a function bound to a global earlier in the same statement: the binding is completed before
+	// the failure, so it persists and must stay callable
+	sf = blk(append([]node.Type{asg("surv", fn(bin("+", nm("v"), lit()), "v"))}, sf.(node.Block).Body...)...)
 	vrt.Note("failing-statement", Src(sf))
 	used := vrt.Bool("repl-mode")
 	failed := p.Step(sf, used, "failing-statement")
@@ -69,6 +72,7 @@ func VerifC08Session() {
 	// probes
 	p.Step(nm("g1"), true, "probe/g1")
 	p.Step(nm("g2"), true, "probe/g2")
+	p.Step(call("surv", ilit(5)), true, "probe/function-bound-in-the-failed-statement")
 	switch vrt.Choice("probe", 4) {
 	case 0:
 		p.Step(call("wrapf", ilit(5)), true, "probe/call")
